@@ -184,6 +184,21 @@ def _drive(case, ctx, make_reduction, S, lid, strategy, scitype, n, wl, fh, nx, 
     if need_fit_fh and fh_in == "predict":
         fh_in = "fit"
     feasible = wl + (1 if strategy == "recursive" else hmax) <= n
+    base = 0
+    if case["dseed"] % 5 == 3:
+        # a used forecaster that is given another window length and fitted again: the new fit is made with the new configuration only
+        wl0 = wl + 2 if case["dseed"] % 2 else max(1, wl - 1)
+        if wl0 != wl:
+            f.set_params(window_length=wl0)
+            m = min(n, wl0 + hmax + 3)
+            try:
+                f.fit(pd.Series(np.linspace(5.0, 9.0, m), index=pd.RangeIndex(7, 7 + m)), None if X is None else
+                      pd.DataFrame({c: np.linspace(1.0, 2.0, m) for c in X.columns}, index=pd.RangeIndex(7, 7 + m)), fh=fh)
+                ctx.tag("prehistory:fitted-with-window-%s-then-reconfigured" % ("longer" if wl0 > wl else "shorter"))
+            except Exception:  # noqa
+                ctx.tag("prehistory:earlier-fit-refused")
+            f.set_params(window_length=wl)
+            base = len(spies.log(lid))
     try:
         # the same horizon as relative steps or (a quarter of the cases without follow-up) as absolute time points
         fha = fh
@@ -199,7 +214,7 @@ def _drive(case, ctx, make_reduction, S, lid, strategy, scitype, n, wl, fh, nx, 
         ctx.check("fit.rows", False, "reduce:%s:window-does-not-fit-accepted" % strategy, "window + horizon longer than the series accepted")
         return
     lg = spies.log(lid)
-    fits = [e for e in lg if e["op"] == "fit"]
+    fits = [e for e in lg[base:] if e["op"] == "fit"]
     if not _check_fits(ctx, fits, S, n, wl, fh, strategy, scitype, "fit"):
         return
     fit_objs = [e["obj"] for e in fits]
